@@ -574,6 +574,48 @@ def replay_tape(run, d, harness, tape):
     return {"reproduced": rc == 1, "output": (so + se)[-1500:], "cmd": cmd}
 
 
+# ======================================================================== native exhaustive enumeration (C05 fallback)
+def run_native_enum(run, cfg):
+    """Harness bodies that ENUMERATE a finite input space themselves are executed natively (kh-replay, ordinary toolchain,
+    real crates).  No verifier is involved: this is a bounded stand-in for functions neither Verus (after a rewrite) nor
+    CBMC (PushProgram) can carry; it is listed under `bounded` and never counted as discharged."""
+    d = kani_crate(run)
+    rc, so, se, _ = sh(["cargo", "build", "--offline", "--release", "--bin", "kh-replay"], cwd=d, timeout=1800, env={"RUSTFLAGS": HOOK_RUSTFLAGS})
+    if rc != 0:
+        return "native enumeration: the harness crate does not build against this tree:\n" + se[-1200:]
+    exe = os.path.join(d, "target", "release", "kh-replay")
+    os.makedirs(os.path.join(run.root, "replays"), exist_ok=True)
+    tp = os.path.join(run.root, "replays", "empty.tape.json")
+    open(tp, "w").write("[]")
+    und = None
+    for h in cfg["native"]:
+        if h.get("tier", "quick") == "thorough" and run.tier != "thorough":
+            continue
+        rc, so, se, wall = sh([exe, h["harness"], tp], timeout=h.get("timeout", 1200), env={"RUST_BACKTRACE": "0"})
+        run.backends.setdefault("native execution (rustc)", {"wall_seconds": 0.0})
+        run.backends["native execution (rustc)"]["wall_seconds"] += wall
+        covered = [l for l in so.split("\n") if l.startswith("REPLAY-COVER:")]
+        failed = [l[len("REPLAY: obligation failed on the real code: "):] for l in so.split("\n") if l.startswith("REPLAY: obligation failed")]
+        panicked = [l for l in so.split("\n") if "PANICKED" in l]
+        ok = rc == 0 and bool(covered)
+        run.bounded.append({"harness": "native:" + h["harness"], "bound": h["bound"], "what": h["what"], "ok": ok, "checks": 1,
+                            "seconds": round(wall, 2), "kind": "exhaustive enumeration executed natively (no verifier)"})
+        cmd = "cd %s && RUSTFLAGS='%s' cargo build --offline --release --bin kh-replay 2>/dev/null; %s %s %s" % (d, HOOK_RUSTFLAGS, exe, h["harness"], tp)
+        if rc == 1:
+            for f in failed or panicked or ["unknown obligation"]:
+                m = re.match(r"(.*?) \[input: (.*)\]$", f)
+                label, inp = (m.group(1), m.group(2)) if m else (f, None)
+                run.report_failure("%s@native:%s" % (label.replace(" ", "-")[:160], h["harness"]), label, so[-3000:],
+                                   failing_input={"input": inp or so[-400:], "harness": h["harness"]}, replay_cmd=cmd)
+        elif rc == 124:
+            und = und or "native enumeration %s timed out" % h["harness"]
+        elif rc != 0:
+            und = und or "native enumeration %s: exit %d: %s" % (h["harness"], rc, (so + se)[-400:])
+        elif not covered:
+            und = und or "native enumeration %s explored nothing (vacuous)" % h["harness"]
+    return und
+
+
 # ======================================================================== compile-time type-state obligations (C19)
 def run_compile_snippets(run, cfg):
     """Each snippet is compiled alone against the real crate.  must-fail snippets have to be rejected with the expected
